@@ -5,8 +5,9 @@
 # and that the demonstration passes without the change.  Prints CONFIRMED or REJECTED: reason.
 set -u
 D="$(readlink -f "$1")"
-WT=/tmp/confirm_wt
-export CARGO_TARGET_DIR=/tmp/confirm_target CARGO_NET_OFFLINE=true
+SLOT="${CONFIRM_SLOT:-}"   # several confirmations can run side by side, one slot each
+WT=/tmp/confirm_wt$SLOT
+export CARGO_TARGET_DIR=/tmp/confirm_target$SLOT CARGO_NET_OFFLINE=true
 if [ ! -d "$WT" ]; then git -C /repo worktree add -q --detach "$WT" HEAD || exit 2; fi
 cd "$WT" && git checkout -q --detach "$(git -C /repo rev-parse HEAD)" && git checkout -q -- . && git clean -qfd
 # where does the demo go?  first line: "// place at <path>" or similar; fall back on crate guess
@@ -15,9 +16,9 @@ DEST=$(head -3 "$D/demo.rs" | grep -oE 'huginn-net[a-z-]*/tests/[A-Za-z0-9_]+\.r
 CRATE=$(echo "$DEST" | cut -d/ -f1); TEST=$(basename "$DEST" .rs)
 FEAT=""; grep -q "verif-hooks" "$D/demo.rs" && FEAT="--features verif-hooks"
 cp "$D/demo.rs" "$WT/$DEST"
-if ! cargo test -q -p "$CRATE" --test "$TEST" --offline $FEAT >/tmp/confirm_demo_clean.log 2>&1; then echo "REJECTED: demo fails on the unchanged tree"; tail -5 /tmp/confirm_demo_clean.log; rm -f "$WT/$DEST"; exit 1; fi
+if ! cargo test -q -p "$CRATE" --test "$TEST" --offline $FEAT >/tmp/confirm_demo_clean$SLOT.log 2>&1; then echo "REJECTED: demo fails on the unchanged tree"; tail -5 /tmp/confirm_demo_clean$SLOT.log; rm -f "$WT/$DEST"; exit 1; fi
 if ! git apply "$D/patch.diff"; then echo "REJECTED: patch does not apply"; rm -f "$WT/$DEST"; exit 1; fi
-if cargo test -q -p "$CRATE" --test "$TEST" --offline $FEAT >/tmp/confirm_demo_mut.log 2>&1; then echo "REJECTED: demo passes with the change"; git checkout -q -- .; rm -f "$WT/$DEST"; exit 1; fi
+if cargo test -q -p "$CRATE" --test "$TEST" --offline $FEAT >/tmp/confirm_demo_mut$SLOT.log 2>&1; then echo "REJECTED: demo passes with the change"; git checkout -q -- .; rm -f "$WT/$DEST"; exit 1; fi
 rm -f "$WT/$DEST"
 SUM=$(cargo nextest run --workspace --no-fail-fast --offline 2>&1 | grep -E "Summary" | tail -1)
 git checkout -q -- . ; git clean -qfd
